@@ -126,7 +126,11 @@ def cost_sinks_only(f, seeds):
                     if not pl or pl["l"] != l:
                         continue
                     c = t.get("callee") or t.get("raw") or "<indirect>"
-                    if is_cost_helper(c) or c.endswith("Try>::branch") or c.endswith("::from_residual"):
+                    if c.endswith("::from_residual"):
+                        # the residual of a failed cost check becomes the function's Err value: an error, not a value that
+                        # can reach the result node (its Ok projection does not exist)
+                        continue
+                    if is_cost_helper(c) or c.endswith("Try>::branch"):
                         dl = t["dst"]["l"]
                         if dl != 0 and not t["dst"]["p"] and dl not in tainted:
                             tainted.add(dl)
